@@ -14,7 +14,7 @@ def register(reg):
                                    'flush_count': Int, 'tip': KBytes},
             inv=[('height', 'self.height >= -1')])
     reg.cls(HIST, fields={'db': Obj(KV), 'flush_count': Int, 'comp_flush_count': Int, 'comp_cursor': Int,
-                          'unflushed': Dict(KBytes, KBytes), 'unflushed_count': Int, 'max_hist_row_entries': Int,
+                          'unflushed': Dict(KBytes, KBytes, default=b''), 'unflushed_count': Int, 'max_hist_row_entries': Int,
                           'db_version': Int, 'upgrade_cursor': Int})
     reg.cls(DBK, fields={'env': Obj('ext:DBEnv'), 'state': Obj('ext:DBState'), 'utxo_db': Obj(KV),
                          'history': Obj(HIST), 'fs_height': Int, 'fs_tx_count': Int, 'tx_counts': List(Int)})
